@@ -63,12 +63,13 @@ theorem leafCheck_of_decodePrim (ty : PrimTy) (t : Tag) (v : PrimVal)
 /-- **leaf_of_prim**: the payload C01's encoder produces for a representable
     value is a structurally valid leaf of C03, and C01's decoder recovers the
     value from the very tag C03's leaf stands for. -/
-theorem leaf_of_prim (v : PrimVal) (hv : C01.Valid v) :
+theorem leaf_of_prim (v : PrimVal) (hv : C01.Valid v) (hf : C01.Fits v) :
     ∃ t, encodePrim v = .ok t ∧ t.cls = .app ∧ t.num = (tyOf v).appTag ∧
       leafOK (tyOf v).appTag t.lvt t.data = true ∧
       decodePrim (tyOf v) ⟨.app, (tyOf v).appTag, t.lvt, t.data⟩ = .ok v := by
   obtain ⟨t, he, hd⟩ := C01.prim_roundtrip v hv
   obtain ⟨hcls, hnum, hshape⟩ := C01.encodePrim_shape v t he
+  have hlen : t.data.length < 4294967296 := by simpa [C01.Fits, he] using hf
   have ht : t = ⟨.app, (tyOf v).appTag, t.lvt, t.data⟩ := by
     cases t; simp_all
   refine ⟨t, he, hcls, hnum, ?_, by rw [← ht]; exact hd⟩
@@ -79,7 +80,12 @@ theorem leaf_of_prim (v : PrimVal) (hv : C01.Valid v) :
   simp only [Bool.true_and]
   rw [hnum] at hshape
   split at hshape
-  · rename_i h1; simp [h1, hshape.1]
-  · rename_i h1; simp [h1, hshape]
+  · rename_i h1
+    have : t.lvt < 4294967296 := by omega
+    simp [h1, hshape.1, this]
+  · rename_i h1
+    have : t.lvt < 4294967296 := by omega
+    have h2 : (tyOf v).appTag ≠ 1 := h1
+    simp [h2, hshape, hlen]
 
 end BacVerif.C03
